@@ -95,6 +95,9 @@ func Kind[T any](p *Property, name string, judge func(c *Ctx, in *T)) func(c *Ct
 		defer func() { c.curKind, c.curInput = pk, pi }()
 		c.writePending()
 		defer c.recoverTop("judge:" + name)
+		if pk == "" { // top-level case (not a judge called from a judge)
+			c.checkRetained()
+		}
 		judge(c, in)
 	}
 	if p.kinds == nil {
@@ -146,6 +149,61 @@ type Ctx struct {
 
 	phaseName  string
 	phaseStart time.Time
+
+	retained []retainedResult
+	caseSeq  uint64
+}
+
+// retainedResult is something the library handed to the caller during an
+// earlier case; whatever the library does later must not change it.
+type retainedResult struct {
+	what string
+	live func() []byte
+	snap []byte
+	born uint64
+}
+
+// Retain registers a result returned by the library (a slice, or an object
+// rendered to bytes by live). It is re-checked at the start of the following
+// cases: a change means the result shares memory with library state (pooled
+// buffer, cached slice, package-level table).
+func (c *Ctx) Retain(what string, live func() []byte) {
+	if c.Replay || len(c.retained) >= 24 {
+		return
+	}
+	var snap []byte
+	if pv, _ := TryQuiet(func() { snap = append([]byte{}, live()...) }); pv != nil {
+		return
+	}
+	c.retained = append(c.retained, retainedResult{what: what, live: live, snap: snap, born: c.caseSeq})
+}
+
+func (c *Ctx) checkRetained() {
+	c.caseSeq++
+	if len(c.retained) == 0 {
+		return
+	}
+	keep := c.retained[:0]
+	for _, r := range c.retained {
+		var now []byte
+		if pv, _ := TryQuiet(func() { now = r.live() }); pv != nil {
+			continue
+		}
+		c.cov["retained-results-rechecked"]++
+		if string(now) != string(r.snap) {
+			i := 0
+			for i < len(now) && i < len(r.snap) && now[i] == r.snap[i] {
+				i++
+			}
+			c.Violation(c.Prop.ID+":result-changed-by-a-later-call:"+r.what,
+				fmt.Sprintf("a %s handed out by the library %d case(s) ago no longer has the content it had then (first difference at byte %d of %d): the result shares memory with library state. The replay record is the case that ran when the change was noticed; the change was made by it or by the cases just before it.", r.what, c.caseSeq-r.born, i, len(r.snap)))
+			continue
+		}
+		if c.caseSeq-r.born < 3 {
+			keep = append(keep, r)
+		}
+	}
+	c.retained = keep
 }
 
 func (c *Ctx) init() {
